@@ -151,9 +151,33 @@ func vC12Reply(pfx string) []byte {
 	return []byte{vU8(pfx + "id0"), vU8(pfx + "id1"), 0x80, 0, 0, 0, 0, 0, 0, 0, 0, 0}
 }
 
+// vClockConn: a connected datagram socket that records the read deadlines it is given and lets time pass (one
+// second of the engine clock; a moment of the real one in native replay) before every datagram it delivers.
+type vClockConn struct {
+	vDgramConn
+	deadlines   []time.Time
+	atFirstRead int
+	nreads      int
+}
+
+func (c *vClockConn) SetReadDeadline(t time.Time) error {
+	c.deadlines = append(c.deadlines, t)
+	return nil
+}
+func (c *vClockConn) SetDeadline(t time.Time) error { return c.SetReadDeadline(t) }
+func (c *vClockConn) Read(p []byte) (int, error) {
+	if c.nreads == 0 {
+		c.atFirstRead = len(c.deadlines)
+	}
+	c.nreads++
+	vAdvanceClock(1)
+	return c.vDgramConn.Read(p)
+}
+
 // H_C12_ids: the datagram exchange returns the first reply with the query's ID (skipping others) or the deadline
 // error; the stream exchange returns ErrId for a reply with another ID.
 func H_C12_ids() {
+	vFixNow(1700000000)
 	m := new(Msg)
 	m.Id = vU16("qid")
 	m.Question = []Question{{Name: "a.ex.", Qtype: TypeA, Qclass: ClassINET}}
@@ -168,9 +192,18 @@ func H_C12_ids() {
 	}
 	vReach("exchanging")
 	if vChoice("transport", 2) == 0 {
-		dc := &vDgramConn{}
+		dc := &vClockConn{}
 		dc.in = replies
 		r, _, err := c.ExchangeWithConnContext(context.Background(), m, &Conn{Conn: dc})
+		// the deadline in force when the first datagram was awaited bounds the whole exchange: replies with other IDs
+		// do not move it further away
+		if dc.atFirstRead > 0 {
+			base := dc.deadlines[dc.atFirstRead-1]
+			for _, d := range dc.deadlines[dc.atFirstRead:] {
+				vAssert(!d.After(base), "deadline-not-extended-by-skipped-replies")
+			}
+		}
+		vAssert(dc.nreads == 0 || dc.atFirstRead > 0, "read-deadline-set-before-waiting")
 		first := -1
 		for i, id := range ids {
 			if id == m.Id {
